@@ -36,7 +36,7 @@ def lam_slice(t):
     return None
 
 
-def run(chk, S: Session):
+def _run_own(chk, S: Session):
     chk.trust("typing rules of tdomain.py", "bayes_rule_and_logpdf_tree(data, rv) -> (logpdf, conditioned rv)")
     r1 = chk.rule("R-C12-1", "evaluate_lml: terminal datum/model at index -1 on the terminal marginal; scan aligned (conditional k, datum k, model k), inductive typing", floor=10)
     r2 = chk.rule("R-C12-2", "running mean / sum of the log-densities; counter from 1 by 1; the carried value is returned", floor=6)
@@ -153,3 +153,11 @@ def run(chk, S: Session):
         gv = [g for g in it.cur_guards if g["exc"] == "ValueError" and "std" in T.atoms_of(g["cond"])]
         r3.require(len(gv) >= 2, "loss_lml_timeseries std checks", "std checks passed on every path", f"{len(gv)}", EST, {"average_pdfs": average})
     S.absorb(it)
+
+
+def run(chk, S: Session):
+    _run_own(chk, S)
+    from ..harness import borrow
+
+    rb = chk.rule("R-C12-B", "clause of this statement decided by a rule of C08 (the observation model selects the requested Taylor coefficient; log-density value)", floor=6)
+    borrow(chk, S, rb, "C08", lambda r, c: r == "R-C08-3" and ("to_derivative" in c or "logpdf" in c))
